@@ -561,6 +561,175 @@ def rule_constraints(rep, bco, enums, G, table, astu):
     rep.floor('R2-constraint-operators', len(sym), 24)
 
 
+class Unknown(Exception):
+    pass
+
+
+class MiniEval:
+    """concrete evaluation of a small C++ function (string / bool / int values) -- used to run IntrinsicFunctor::print and
+    isInfixFunctorOp(string_view) for every functor symbol, instead of guessing what they print"""
+
+    def __init__(self, funcs, consts, cands_of, legacy, this_fields):
+        self.funcs, self.consts, self.cands_of, self.legacy, self.this = funcs, consts, cands_of, legacy, this_fields
+        self.out = []
+
+    def call_function(self, name, args):
+        fs = [f for f in self.funcs if f.name == name and not f.is_lambda and len(f.d['params']) == len(args) and
+              all(('string' in p['t']) == isinstance(a, str) for p, a in zip(f.d['params'], args))]
+        if not fs:
+            raise Unknown('call of %s' % name)
+        f = fs[0]
+        env = {p['name']: a for p, a in zip(f.d['params'], args)}
+        r = self.block(f.body, env)
+        return r[1] if r else None
+
+    def block(self, n, env):
+        k = n['k']
+        if k == 'CompoundStmt':
+            for c in kids(n):
+                r = self.block(c, env)
+                if r:
+                    return r
+            return None
+        if k == 'DeclStmt':
+            for vd in kids(n):
+                if vd['k'] == 'VarDecl':
+                    env[vd['name']] = self.ev(kids(vd)[0], env) if kids(vd) else None
+            return None
+        if k == 'IfStmt':
+            parts = dict(zip(n.get('roles', []), n['c']))
+            if self.ev(parts['cond'], env):
+                return self.block(parts['then'], env)
+            if parts.get('else') is not None:
+                return self.block(parts['else'], env)
+            return None
+        if k == 'ReturnStmt':
+            return ('ret', self.ev(kids(n)[0], env) if kids(n) else None)
+        if k == 'NullStmt':
+            return None
+        self.ev(n, env)
+        return None
+
+    def ev(self, n, env):
+        k = n['k']
+        if k in ('ImplicitCastExpr', 'ExprWithCleanups', 'MaterializeTemporaryExpr', 'CXXBindTemporaryExpr', 'ParenExpr', 'CXXFunctionalCastExpr',
+                 'CXXStaticCastExpr', 'ConstantExpr', 'CStyleCastExpr'):
+            return self.ev(kids(n)[0], env)
+        if k in ('CXXConstructExpr', 'CXXTemporaryObjectExpr'):
+            a = kids(n)
+            return self.ev(a[0], env) if len(a) == 1 else ''
+        if k == 'StringLiteral':
+            return n.get('str', '')
+        if k == 'IntegerLiteral':
+            return int(n['val'])
+        if k == 'CharacterLiteral':
+            return chr(n['val'])
+        if k == 'CXXBoolLiteralExpr':
+            return bool(n.get('val'))
+        if k == 'CXXNullPtrLiteralExpr' or k == 'GNUNullExpr':
+            return None
+        if k == 'CXXDefaultArgExpr':
+            return ('default',)
+        if k == 'CXXThisExpr':
+            return ('this',)
+        if k == 'DeclRefExpr':
+            if n.get('name') in env:
+                return env[n['name']]
+            if n.get('name') in self.consts:
+                return self.consts[n['name']]
+            if n.get('dk') == 'Function':
+                return ('fn', n['name'])
+            raise Unknown('variable %s' % n.get('name'))
+        if k == 'MemberExpr':
+            base = self.ev(kids(n)[0], env) if kids(n) else None
+            m = n.get('member')
+            if base == ('this',) and m in self.this:
+                return self.this[m]
+            if isinstance(base, tuple) and base[:1] == ('cand',) and m == 'op':
+                return ('op', base[1])
+            return ('bound', base, m)
+        if k == 'ConditionalOperator':
+            c, a, b = kids(n)
+            return self.ev(a, env) if self.ev(c, env) else self.ev(b, env)
+        if k == 'UnaryOperator':
+            v = self.ev(kids(n)[0], env)
+            if n.get('op') == '!':
+                return not v
+            raise Unknown('unary %s' % n.get('op'))
+        if k == 'BinaryOperator':
+            op = n.get('op')
+            if op == '||':
+                return bool(self.ev(kids(n)[0], env)) or bool(self.ev(kids(n)[1], env))
+            if op == '&&':
+                return bool(self.ev(kids(n)[0], env)) and bool(self.ev(kids(n)[1], env))
+            a, b = self.ev(kids(n)[0], env), self.ev(kids(n)[1], env)
+            if op == '==':
+                return a == b
+            if op == '!=':
+                return a != b
+            if op == '=':
+                tgt = strip(kids(n)[0], casts=True)
+                env[tgt.get('name')] = b
+                return b
+            if op == '+':
+                return a + b
+            raise Unknown('binary %s' % op)
+        if k == 'CXXOperatorCallExpr':
+            op = n.get('op')
+            a = call_args(n)
+            if op == '<<':
+                self.ev(a[0], env)
+                v = self.ev(a[1], env)
+                self.out.append(v)
+                return ('stream',)
+            if op in ('==', '!='):
+                x, y = self.ev(a[0], env), self.ev(a[1], env)
+                return (x == y) == (op == '==')
+            if op == '+':
+                return self.ev(a[0], env) + self.ev(a[1], env)
+            if op == '=':
+                v = self.ev(a[1], env)
+                tgt = strip(a[0], casts=True)
+                env[tgt.get('name')] = v
+                return v
+            raise Unknown('operator %s' % op)
+        if k == 'CXXMemberCallExpr':
+            obj = self.ev(call_obj(n), env) if call_obj(n) is not None else None
+            cn = n.get('cn')
+            a = [self.ev(x, env) for x in call_args(n)]
+            if cn == 'empty':
+                return len(obj[1]) == 0 if isinstance(obj, tuple) and obj[:1] == ('cands',) else len(obj) == 0
+            if cn in ('size', 'length'):
+                return len(obj[1]) if isinstance(obj, tuple) else len(obj)
+            if cn == 'front':
+                return ('cand', obj[1][0]) if isinstance(obj, tuple) and obj[:1] == ('cands',) else obj[0]
+            if cn == 'at':
+                return obj[a[0]]
+            if cn == 'get':
+                return obj
+            if cn and cn.startswith('operator '):
+                return obj
+            raise Unknown('member call %s' % cn)
+        if k == 'CallExpr':
+            cn = n.get('cn')
+            a = [self.ev(x, env) for x in call_args(n)]
+            if cn == 'functorBuiltIn':
+                return ('cands', self.cands_of(a[0]))
+            if cn == 'toString':
+                v = a[0]
+                return self.legacy.get(v[1]) if isinstance(v, tuple) and v[:1] == ('op',) else str(v)
+            if cn == 'isalpha':
+                return isinstance(a[0], str) and a[0][:1].isalpha()
+            if cn == 'strchr':
+                return a[0].find(a[1]) if a[1] in a[0] else None
+            if cn == 'join':
+                return ('join', a[1] if len(a) > 1 and isinstance(a[1], str) else ',')   # join()'s default delimiter is ","
+            return self.call_function(cn, a)
+        if k == 'DeclStmt' or k == 'CompoundStmt':
+            return self.block(n, env)
+        raise Unknown('node %s' % k)
+
+
 def rule_functors(rep, fo, G, table, astu):
     """R2 for intrinsic functors: printed keyword/operator of every FUNCTOR_INTRINSICS symbol leads back to the same symbol"""
     from props import C24
@@ -571,7 +740,7 @@ def rule_functors(rep, fo, G, table, astu):
             for sw in tables.switches(f, enum='FunctorOp'):
                 for g in sw.groups:
                     lit = [m.get('str') for s_ in g.stmts for m in walk(s_) if m['k'] == 'StringLiteral']
-                    ref = [m.get('name') for s_ in g.stmts for m in walk(s_) if m['k'] == 'DeclRefExpr' and m.get('dk') in ('Var',) and 'char' in m.get('t', '')]
+                    ref = [m.get('name') for s_ in g.stmts for m in walk(s_) if m['k'] == 'DeclRefExpr' and m.get('dk') not in ('EnumConstant', 'Function', 'Parm') and 'char' in m.get('t', '')]
                     for l in g.labels:
                         tab[l] = lit[0] if lit else (('@' + ref[0]) if ref else None)
     if len(legacy) < 60:
@@ -584,10 +753,27 @@ def rule_functors(rep, fo, G, table, astu):
         rep.analysis_broken('IntrinsicFunctor::print not found')
         return
     f = pf[0]
-    # which name does print() stream?  the legacy keyword (via toString(op) / operator<<(FunctorOp)) or the raw internal symbol
-    uses_legacy = any(is_call(m, 'toString') or (m['k'] == 'DeclRefExpr' and cls_of_type(m.get('t', '')) == 'FunctorOp') for m in f.walk())
-    streams_raw = any(m['k'] == 'CXXOperatorCallExpr' and m.get('op') == '<<' and strip(call_args(m)[1], casts=True).get('member') == 'function' for m in f.walk()) \
-        or any(is_call(m, 'join') and any(x.get('member') == 'function' for x in walk(call_args(m)[1])) for m in f.walk() if len(call_args(m)) > 1)
+    # print() is RUN for every symbol (concretely, on its AST): no guess about which name it streams
+    consts = {'FUNCTOR_INTRINSIC_PREFIX_NEGATE_NAME': NEGNAME}
+    sym_ops = {}
+    for op_, rows in decl.items():
+        sy = symbol.get(op_) or legacy.get(op_)
+        if sy and sy.startswith('@'):
+            sy = NEGNAME
+        sym_ops.setdefault(sy, []).append(op_)
+
+    def printed(sym, arity):
+        ev = MiniEval(list(fo.functions) + [f], consts, lambda x: sym_ops.get(x, []), legacy, {'function': sym})
+        ev.block(f.body, {f.d['params'][0]['name']: ('stream',)})
+        txt = ''
+        for v in ev.out:
+            if isinstance(v, tuple) and v[:1] == ('join',):
+                txt += v[1].join(['\x00arg\x00'] * arity)
+            elif isinstance(v, str):
+                txt += v
+            else:
+                raise Unknown('streams %r' % (v,))
+        return txt
     prods = G.rules.get('arg', [])
     fb = {}
     for rhs, act in G.rules.get('functor_built_in', []):
@@ -599,28 +785,49 @@ def rule_functors(rep, fo, G, table, astu):
         internal = symbol.get(op) or legacy.get(op)
         if internal and internal.startswith('@'):
             internal = NEGNAME
-        shown = legacy.get(op) if (uses_legacy and not streams_raw) else internal
-        if shown == '-' or internal == NEGNAME:
-            shown = '-'
-        if shown is None:
-            rep.analysis_broken('C15 R2: no printed name for FunctorOp::%s' % op)
+        arity = 2 if decl[op][0].get('variadic') else len(decl[op][0]['params'])
+        try:
+            text = printed(internal, arity)
+        except (Unknown, KeyError, IndexError, TypeError) as e:
+            rep.analysis_broken('C15 R2: IntrinsicFunctor::print could not be evaluated for "%s": %s' % (internal, e))
             continue
         n += 1
-        tok = table.get(shown)
+        toks = grammar.tokenize(text, table)
+        kw = [t for t in toks if t not in ('LPAREN', 'RPAREN', 'COMMA', 'arg')]
         ok, why = False, ''
-        if tok is None:
-            why = 'printed as `%s`, which is not a token of the scanner: the printed program does not re-parse' % shown
+        if any(t.startswith('INVALID') or t == 'IDENT' for t in toks):
+            why = 'printed as `%s` (tokens %s): not tokens of the scanner, the printed program does not re-parse' % (text.replace('\x00', ''), ' '.join(toks))
+        elif not G.derives('arg', toks):
+            why = 'printed as `%s` (tokens %s): not derivable from `arg`' % (text.replace('\x00', ''), ' '.join(toks))
+        elif len(kw) != 1:
+            why = 'printed as `%s`: expected exactly one operator/keyword token, got %s' % (text.replace('\x00', ''), kw)
         else:
-            # a production of arg using this token whose action names the internal symbol; or functor_built_in; or an aggregate-named functor (min/max)
+            tok = kw[0]
             hits = [(rhs, act) for rhs, act in prods if tok in rhs and ('"%s"' % internal in act or (internal == NEGNAME and 'FUNCTOR_INTRINSIC_PREFIX_NEGATE_NAME' in act))]
             if hits or fb.get(tok) == internal:
                 ok = True
             elif any('aggregate_func' in rhs and '"%s"' % internal in act for rhs, act in prods) and any(tok in rhs for rhs, _ in G.rules.get('aggregate_func', [])):
                 ok = True
             else:
-                why = 'printed as `%s` (token %s) but no production of `arg` with that token builds the functor "%s"' % (shown, tok, internal)
+                why = 'printed as `%s` (token %s), which the grammar parses to a DIFFERENT functor than "%s": no production of `arg` with that token builds it' % (
+                    text.replace('\x00', ''), tok, internal)
         rep.ob('R2-functor-print-reparses', 'FunctorOp::%s' % op, ok, f.where, why)
     rep.floor('R2-functor-operators', n, 70)
+
+
+def rule_numeric_suffix(rep, astu, G):
+    """R4: the parser strips the `u` of an unsigned literal and records Type::Uint; the printed constant must carry the suffix again
+    (a NumericConstant with a fixed unsigned type is otherwise re-read as a signed / polymorphic number)."""
+    stripped = any('UNSIGNED' in rhs and 'Uint' in act and 'substr' in act for rhs, act in G.rules.get('arg', []))
+    if not stripped:
+        rep.ob('R4-unsigned-suffix-printed', 'NumericConstant/Uint', True, 'src/parser/parser.yy', 'the parser keeps the lexeme of unsigned literals', nontrivial=False)
+        return
+    pr = [f for u in astu for f in u.functions if f.name == 'print' and f.d.get('cls') == 'NumericConstant']
+    ok = bool(pr) and any(x.get('member') == 'fixedType' or is_call(x, 'getFixedType') for x in pr[0].walk()) and \
+        any(x['k'] in ('StringLiteral', 'CharacterLiteral') and (x.get('str') == 'u' or x.get('val') == ord('u')) for x in pr[0].walk())
+    rep.ob('R4-unsigned-suffix-printed', 'NumericConstant/Uint', ok, 'src/ast/NumericConstant.cpp',
+           '' if ok else 'the parser drops the `u` of an unsigned literal (Type::Uint is kept in the node), and NumericConstant has no print() that restores it: '
+           '`4294967295u` prints as `4294967295`, which no longer is an unsigned constant')
 
 
 def rule_enum_exceptions(rep, enums):
@@ -655,6 +862,7 @@ def analyse(rep):
     rule_constraints(rep, bco, enums, G, table, astu)
     rule_functors(rep, fo, G, table, astu)
     rule_escaping(rep, astu, escape_tables(su))
+    rule_numeric_suffix(rep, astu, G)
 
 
 A = 'src/ast/'
